@@ -418,7 +418,9 @@ def run_history(history):
 
 
 OWN_TEXTS = {'g1': ['a b b', 'a'], 'g5': ['a b', 'x'], 'g6': ['x 1', '1'], 'g10': ['hunter2', 'abc'], 'g11': ['abc', 'zz9'],
-             'g8': ['i 1 b true f 1.0', 'b true i 1', 'f 1.0 b true i 1', 'i 0 b false f 0.0', 'b false i 0'],
+             'g8': ['i 1 b true f 1.0', 'b true i 1', 'f 1.0 b true i 1', 'i 0 b false f 0.0', 'b false i 0',
+                    # one value per call: equal values of different types arrive in DIFFERENT calls on one object
+                    'i 1', 'b true', 'f 1.0', 'i 0', 'b false', 'f 0.0'],
              'g4': ['1+2+3', '1+'], 'g7': ['let q r', 'let let', 'let LET q', 'LET q'], 'g3': ['foo if', 'Foo BAR', 'foo IF', 'If'], 'g2': ['x, y', 'x', 'x,'], 'g9': ['foo bar', 'x'], 'g12': ['abc', 'abc 1 2']}
 
 
@@ -438,6 +440,12 @@ def gen_history(rnd):
         ga, gb = rnd.choice([('g6', 'g2'), ('g2', 'g6')])
         for g in (ga, gb):
             hist.append(('parse', g, rnd.choice(OWN_TEXTS[g][:2] if g == 'g2' else OWN_TEXTS[g][:1]), None, True, 'none'))
+    if rnd.random() < 0.08:
+        # one model with one semantics object, and equal values of different types (1 / True / 1.0) arriving in different calls
+        hist.append(('compile', 'g8', None, False, rnd.choice(['B', 'S2', 'F1', 'D1']), None, None, 'mv'))
+        models['mv'] = 'g8'
+        for _ in range(rnd.randint(2, 4)):
+            hist.append(('mparse', 'mv', rnd.choice(['i 1', 'b true', 'f 1.0', 'i 0', 'b false', 'f 0.0']), None, {}))
     for step in range(n):
         c = rnd.random()
         if c < 0.3 or not (models or parsers):
